@@ -1,6 +1,7 @@
 package rules
 
 import (
+	"strings"
 	"fmt"
 	"go/token"
 	"go/types"
@@ -278,6 +279,21 @@ func runC07(c *engine.Ctx) {
 		if len(stores) == 0 {
 			c.Violate(r2, k, s.pos, "the function charging the root load never hands a Budget to traversal.Progress: per-link loads are uncounted")
 			continue
+		}
+		// ... on every path to the walk (a conditional hand-over leaves some walks unbudgeted)
+		for _, ci := range engine.Calls(s.fn) {
+			if ci.Static == nil || ci.Static.Pkg == nil || ci.Static.Pkg.Pkg != trav.Pkg || !strings.HasPrefix(ci.Static.Name(), "Walk") {
+				continue
+			}
+			dom := false
+			for _, st := range stores {
+				if engine.Before(st, ci.Instr) {
+					dom = true
+				}
+			}
+			c.Decide(r2, k+"|"+ci.Static.Name()+"-gets-budget", ci.Instr.Pos(), dom,
+				"the budget is handed to traversal.Progress on every path to the walk",
+				"traversal.Progress.Budget is only set on some paths to "+ci.Static.Name()+": on the others the walk runs without a budget and loads every link")
 		}
 		for _, st := range stores {
 			c.Decide(r2, k, st.Pos(), engine.Path(st.Val) == engine.Path(s.base),
